@@ -39,6 +39,17 @@ WORDS = ['alpha', 'beta', 'gamma', 'delta', 'lorem', 'ipsum', 'dolor', 'sit', 'a
          'true', 'null', 'caf\u00e9', '\u4e2d\u6587', '\U0001F600', 'a b c', 'http://x.y/z']
 
 
+# a stream in a script whose characters need 3-4 bytes each in UTF-8 (a text stream hands the C input handler characters,
+# the parser wants bytes: whoever converts between the two must not ask for more than it was asked for)
+WIDE_WORDS = ['\u4e2d\u6587', '\u65e5\u672c\u8a9e\u306e\u6587\u7ae0', '\ud55c\uad6d\uc5b4', '\U0001F600\U0001F680', '\u0939\u093f\u0928\u094d\u0926\u0940',
+              '\u6f22\u5b57\u304b\u306a\u4ea4\u3058\u308a', '\U00020000\U0002A6D6', '\u0e20\u0e32\u0e29\u0e32\u0e44\u0e17\u0e22', '\u4e00', '\U0001F468\u200d\U0001F469']
+ASCII_WORDS = list(WORDS)
+
+
+def set_script(wide):
+    WORDS[:] = WIDE_WORDS if wide else ASCII_WORDS
+
+
 def canaries():
     return {'K1-eager-block-validation': {
         'api': 'load_all', 'backend': 'py', 'form': 'utf8', 'loader': None, 'malformed': 'reader-bad-utf8', 'mode': 'order',
@@ -235,6 +246,14 @@ def generate(seed, tier):
     form = r.choice(['text', 'utf8', 'utf8', 'utf16le'])
     case = {'mode': mode, 'api': api, 'backend': backend, 'form': form, 'loader': None}
     blk = BLOCK[backend]
+    set_script(r.random() < 0.15)
+    try:
+        return _generate(seed, r, rd, rs, case, mode, api, backend, form, blk, tier)
+    finally:
+        set_script(False)
+
+
+def _generate(seed, r, rd, rs, case, mode, api, backend, form, blk, tier):
     if mode == 'bound':
         parts = gen_stream(rd, backend)
         # a fifth of the bound runs go through a real file-like object (io.StringIO / io.BytesIO) instead of the
